@@ -42,3 +42,95 @@ PROPS["C17"].update(
     level_text="Generated search: 10 000 (quick) / 1.6 M (thorough) call sequences, each checked after every call for identity of handlers() and for execution order against an independent model; failures shrink to a minimal call sequence. Not a proof: sequences longer than ~80 calls and handler objects shared between calls are not explored.",
     level_note="Trusted: the five-list model in harness/rc_sorted.cpp; g++/ASan build; null arguments modelled as no-ops.",
 )
+
+PROPS["C01"] = dict(
+    harness="rc_pipeline",
+    builds=[dict(harness="rc_pipeline")],
+    engine="rc",
+    level="exploration",
+    quick=dict(cases=6000, shards=2, max_size=100, timeout=900),
+    thorough=dict(cases=40000, shards=16, max_size=200, timeout=3000),
+    rule="case = recursively generated handler tree (attribute handlers, function filters, formatters incl. empty/null output, "
+    "generic function handlers with set/remove/format/unformat programs, recording sinks, SeqNumberAttr, DuplicateFilter, null entries "
+    "via initializer lists and via append/<<, shared references to earlier nodes, scoped/unscoped nested pipelines to depth 4) built "
+    "with the raw Pipeline API or the SimplePipeline fluent API, x 1..8 messages. Non-trivial = depth >= 2 AND a handler rejected a "
+    "message with handlers after it AND a sink ran after a scoped sub-pipeline whose exit restored changed state; distinct = canonical JSON.",
+    assumptions=[
+        "cycles (a pipeline containing itself) are not generated",
+        "a formatter returning a null QString leaves the message unformatted (the stated mechanism)",
+    ],
+    floors={"depth>=2": 0.3, "reject_with_handlers_after": 0.2, "sink_after_scoped_restore": 0.05},
+    technique="property-based testing (rapidcheck): generated handler trees and message sequences vs an independent sequential interpreter",
+    level_text="Generated search over handler trees x message sequences; every delivery (sink identity, text, attributes, raw text) and the final message state are compared with an independent interpreter written from the property text. Failing trees shrink to a minimal tree. Not a proof; trees deeper than 4 or wider than ~12 per pipeline are not explored.",
+    level_note="Trusted: the interpreter in harness/rc_pipeline.cpp (Model); Qt containers for attribute maps; g++/ASan build.",
+)
+
+PROPS["C16"] = dict(
+    harness="rc_filters",
+    builds=[dict(harness="rc_filters")],
+    engine="rc",
+    level="exploration",
+    quick=dict(cases=4000, shards=2, max_size=100, timeout=900),
+    thorough=dict(cases=50000, shards=16, max_size=200, timeout=3000),
+    rule="case = pool of 1..5 texts (empty, null, case/whitespace/normalisation variants, texts around the regexp menu, generated Unicode) "
+    "and a sequence of 1..200 messages drawn from it with runs, types uniform, 30% carrying a formatted text different from the raw text; "
+    "on each sequence: LevelFilter x 5 thresholds, DuplicateFilter alone / behind a dropping filter / shared by two scoped sub-pipelines "
+    "together with a shared SeqNumberAttr, RegExpFilter for one of 13 menu expressions (incl. the documented negative look-ahead and the "
+    "CaseInsensitive option), SeqNumberAttr with a custom name. The 5x5 level table is enumerated exhaustively on every run. "
+    "Non-trivial = a run after a different text AND a message dropped by the earlier filter between two equal texts AND the shared "
+    "handlers invoked from both sub-pipelines; distinct = canonical JSON.",
+    assumptions=[
+        "regexp predicates are hand-written per menu entry (no regex engine in the oracle); PCRE semantics assumed: '$' also matches before a final line feed, '.' does not match a line feed, \\b uses ASCII word characters",
+    ],
+    floors={"run_after_different_text": 0.3, "dropped_message_between_equal_texts": 0.15, "shared_handlers_invoked_from_both_pipelines": 0.3},
+    technique="property-based testing (rapidcheck): generated message sequences vs reference automata; exhaustive 5x5 level table",
+    level_text="Generated search over message sequences against reference automata written from the property text; level table exhaustive. Not a proof for arbitrary regular expressions: the regexp filter is checked for a fixed menu of 13 expressions against arbitrary texts.",
+    level_note="Trusted: reference automata and per-expression predicates in harness/rc_filters.cpp.",
+)
+
+PROPS["C15"] = dict(
+    harness="rc_catfilter",
+    builds=[dict(harness="rc_catfilter")],
+    engine="rc",
+    level="exploration",
+    quick=dict(cases=15000, shards=2, max_size=100, timeout=900),
+    thorough=dict(cases=200000, shards=16, max_size=200, timeout=3000),
+    rule="case = rule text of 0..12 (24 thorough) lines joined by mixed ';' / newline separators (empty lines, surrounding whitespace, CR), "
+    "each line a rule whose pattern is derived from the probed category (exact, prefix*, *suffix, mid*dle, *infix*, two stars, near misses, "
+    "'.' for a letter) or drawn from an alphabet with regex metacharacters and non-ASCII letters, optional .debug/.info/.warning/.critical "
+    "(and the non-suffixes .fatal/.Debug), '=' or '==' or two '=', or a garbage line; probed with a category over 'ab.x' plus metacharacters, "
+    "for all five types. Non-trivial = two matching rules with different verdicts, or a regex metacharacter in a matching rule, or a garbage "
+    "line between well-formed rules with a non-default verdict; distinct = canonical JSON of (rules, category).",
+    assumptions=[
+        "probed categories contain no line breaks",
+        "whitespace = ASCII white space (space, TAB, CR, LF, VT, FF)",
+        "a rule 'network.*' does not match category 'network' (the property's glob reading wins over the sentence in docs/api/filters.md)",
+    ],
+    floors={"conflicting_matching_rules": 0.1, "metachar_in_matching_rule": 0.1, "non_default_verdict": 0.2},
+    technique="property-based testing (rapidcheck): generated rule lists x near-miss categories vs a hand-written glob evaluator (differential), QLoggingCategory as second opinion on Qt's subset",
+    level_text="Generated differential search: the filter's verdict for every (rule list, category, type) generated is compared with an independent parser + glob matcher that uses no regular expressions; on the subset Qt supports the reference itself is cross-checked against QLoggingCategory. Not a proof.",
+    level_note="Trusted: harness/common/refglob.h. Disagreements between the reference and QLoggingCategory are reported as warnings (they do not involve the library).",
+)
+
+PROPS["C13"] = dict(
+    harness="rc_json",
+    builds=[dict(harness="rc_json")],
+    engine="rc",
+    level="exploration",
+    quick=dict(cases=10000, shards=2, max_size=100, timeout=900),
+    thorough=dict(cases=100000, shards=16, max_size=200, timeout=3000),
+    rule="case = message (type, text over well-formed Unicode classes ascii/bmp/astral/zero-width/control/pattern-syntax/json-syntax incl. "
+    "null and up to 400 characters, category/file/function printable ASCII or null pointer, any int line) + 0..8 custom attributes with "
+    "names over the same classes (never a built-in name, unique) and values string/int/qlonglong/qulonglong (|n|<=2^53)/finite double/bool/"
+    "invalid/list/map/hash nested to depth 3, compact or indented. Non-trivial = a control character, quote/backslash/slash or astral "
+    "character occurs in a text, name or value, or a nested container is present; distinct = canonical JSON.",
+    assumptions=[
+        "line break = LF or CR; raw U+2028/U+2029/U+0085 are legal JSON and only counted",
+        "time and threadId: presence is required, their encoding is not (informational counter time_round_trips)",
+        "null source-location pointers are recovered as empty strings",
+    ],
+    floors={"class_control": 0.1, "class_astral": 0.1, "nested_container": 0.1, "compact": 0.3},
+    technique="property-based testing (rapidcheck): generated messages/attribute trees, output parsed by an independent strict RFC 8259 parser and compared field by field (round trip)",
+    level_text="Generated round-trip search: every output is parsed by a strict parser written for this purpose (not Qt) and all fields are compared with the inputs. Not a proof; values are bounded to depth 3 and strings to 400 characters.",
+    level_note="Trusted: harness/common/minijson.h and jsonval.h.",
+)
